@@ -344,6 +344,23 @@ let hufdec_line line =
   | M.RErr _ -> "err"
   | M.RPanic _ -> "panic"
 
+(* fsedesc <acc_log> <p0,p1,..> : the table description the model writes, whether the distribution is normalised,
+   and what the model's reader makes of the description followed by one byte *)
+let fsedesc_line line =
+  match List.filter (fun x -> x <> "") (split_on ' ' line) with
+  | [al; ps] ->
+    let al = z_of_string al in
+    let probs = List.map z_of_string (split_on ',' ps) in
+    let okb = if M.dist_okb al probs then "1" else "0" in
+    (match M.desc_bytes al probs with
+     | None -> Printf.sprintf "none %s" okb
+     | Some d ->
+       let back = match M.read_probabilities (z_of_string "255") (d @ [z_of_string "1"]) (z_of_string "9") with
+         | M.ROk ((a, pr), used) -> Printf.sprintf "%s %s %s" (z_to_string a) (String.concat "," (List.map z_to_string pr)) (z_to_string used)
+         | M.RErr _ -> "err" | M.RPanic _ -> "panic" in
+       Printf.sprintf "ok %s %s %s" (hex d) okb back)
+  | _ -> "bad"
+
 let () =
   let cmd = if Array.length Sys.argv > 1 then Sys.argv.(1) else "" in
   let f = match cmd with
@@ -356,6 +373,7 @@ let () =
     | "seqenc" -> seqenc_line
     | "hufstream" -> hufstream_line
     | "hufdec" -> hufdec_line
+    | "fsedesc" -> fsedesc_line
     | "bits64" -> bits_line 0
     | "bitsabs" -> bits_line 1
     | _ -> prerr_endline "usage: driver <prog|fse|huf> < cases"; exit 2 in
